@@ -227,6 +227,59 @@ def run(prog, run):
                 run.violation(r7, 'TaskData::%s#writer:%s' % (role[0] if role else fl['name'], top.qname.split('::')[-1] + ('#lambda' if g.is_lambda else '')), g.loc(i),
                               'TaskData::%s is written in %s%s, outside its setter: a handler registered for one continuation/context can clear a later registration'
                               % (fl['name'], top.display()[:50], ' (inside a lambda, e.g. a signal handler)' if g.is_lambda else ''))
+    r8_deleter(prog, run)
+
+
+def r8_deleter(prog, run):
+    """the type-erased deleter is the only thing that frees a stored value (R5): it must exist for every result type that is stored"""
+    import os
+    from .. import build, facts
+    rid = run.rule('C13.R8', 'every QXmppPromise<T> with a non-void T hands the shared record a deleter that deletes the stored T (the record frees values only through it); only '
+                             'QXmppPromise<void>, which never stores anything, passes none - checked on every instantiation in the build and on instantiation witnesses for bool, '
+                             'int, enum, pointer, empty-struct and QString results (controls/c13_controls.cpp)', floor=30)
+    cprog = facts.Program(build.extract_control(os.path.join(build.VERIF, 'controls', 'c13_controls.cpp'), like_unit='base/QXmppTask.cpp', extra_root=os.path.join(build.REPO, 'src')))
+    seen = {}
+    for pr in (cprog, prog):
+        for f in pr.fns.values():
+            if f.is_lambda or f.raw.get('dependent') or not (f.qname.startswith('QXmppPromise<') and f.qname.endswith('>::QXmppPromise') and not f.params):
+                continue
+            t = f.qname[len('QXmppPromise<'):-len('>::QXmppPromise')]
+            if t in seen:
+                continue
+            inits = [n for n in f.nodes if n['k'] == 'init']
+            arg = None
+            for n in f.nodes:
+                if n['k'] == 'construct' and 'TaskPrivate' in (n.get('cls') or '') and n.get('args'):
+                    arg = f.nodes[f.skip(n['args'][0])]
+            if arg is None:
+                seen[t] = (f, 'the shared record is not constructed in the initialiser')
+                continue
+            if arg['k'] == 'null':
+                seen[t] = (f, None if t == 'void' else 'no deleter (nullptr)')
+                continue
+            lams = [l for n in f.nodes if n['k'] == 'lambda' for l in pr.lambda_fns(f, n)]
+            deletes = [(l, m) for l in lams for m in l.nodes if m['k'] == 'delete']
+            good = False
+            for l, m in deletes:
+                e = l.nodes[l.skip(m['e'])] if 'e' in m else {}
+                inner = l.nodes[m['e']] if 'e' in m else {}
+                casts = [x for x in (inner, e) if x.get('k') == 'cast']
+                to = (casts[0].get('to') if casts else '') or ''
+                if to.replace(' ', '').rstrip('*') == t.replace(' ', '') or (to.endswith('*') and to[:-1].strip() == t):
+                    good = True
+            seen[t] = (f, None if good and t != 'void' else ('a deleter for a promise that stores nothing' if t == 'void' else 'the deleter does not delete a %s' % t))
+    want = ('void', 'bool', 'int', 'qxv_control::Level', 'const char *', 'qxv_control::Empty', 'QString')
+    missing = [w for w in want if w not in seen]
+    if missing:
+        raise AnalysisBroken('C13.R8: instantiation witnesses not found: %s' % missing)
+    for t, (f, problem) in sorted(seen.items()):
+        run.instance(rid)
+        if problem:
+            run.violation(rid, 'QXmppPromise#deleter:%s' % ('trivially-destructible' if t in want[1:6] else t[:40]), f.loc(),
+                          'QXmppPromise<%s> gives the shared record %s: a value stored because the promise finished before a continuation was attached is never freed '
+                          '(neither when it is consumed later nor when the last handle goes away)' % (t[:60], problem))
+        else:
+            run.ok(rid, f.loc(), 'QXmppPromise<%s>: %s' % (t[:60], 'no deleter, nothing is stored' if t == 'void' else 'deleter deletes the stored value'), nontrivial=t in want)
 
 
 def fn_is_template_member(prog, f, m):
